@@ -200,6 +200,20 @@ class _Canon(ast.NodeTransformer):
     def visit_While(self, n):
         self.generic_visit(n)
         n.test = self._nn(n.test)
+        # while True: if X: break; B   ==   while not X: B
+        if isinstance(n.test, ast.Constant) and n.test.value is True and not n.orelse and len(n.body) >= 2 and isinstance(n.body[0], ast.If) \
+                and not n.body[0].orelse and len(n.body[0].body) == 1 and isinstance(n.body[0].body[0], ast.Break):
+            n.test = _negate(n.body[0].test)
+            n.body = n.body[1:]
+            self.count += 1
+        return n
+
+    def visit_Call(self, n):
+        self.generic_visit(n)
+        # dict(k=v, ...) == {'k': v, ...}
+        if isinstance(n.func, ast.Name) and n.func.id == "dict" and not n.args and n.keywords and all(k.arg is not None for k in n.keywords):
+            self.count += 1
+            return ast.copy_location(ast.Dict(keys=[ast.Constant(value=k.arg) for k in n.keywords], values=[k.value for k in n.keywords]), n)
         return n
 
     def visit_If(self, n):
